@@ -175,7 +175,7 @@ fn d1_date_histogram_missing_last_first_page() {
     println!("{page}");
     assert_eq!(
         keys(page["buckets"].as_array().unwrap(), "d"),
-        vec![json!((10 * day * 1000) as f64), json!((11 * day * 1000) as f64), json!(null)]
+        vec![json!(10 * day * 1000), json!(11 * day * 1000), json!(null)]
     );
 }
 
